@@ -12,8 +12,9 @@ import Gzx.Proofs.RS
 import Gzx.Proofs.MinDist
 import Gzx.Proofs.SingleError
 import Gzx.Proofs.Total
+import Gzx.Proofs.Corrects
 namespace Gzx.Properties.C04
-open Gzx Gzx.GF Gzx.RS Gzx.Ref.GF Gzx.Proofs.GF Gzx.Proofs.Poly Gzx.Proofs.RS Gzx.Proofs.MinDist Gzx.Proofs.SingleError Gzx.Proofs.Total
+open Gzx Gzx.GF Gzx.RS Gzx.Ref.GF Gzx.Proofs.GF Gzx.Proofs.Poly Gzx.Proofs.RS Gzx.Proofs.MinDist Gzx.Proofs.SingleError Gzx.Proofs.Total Gzx.Proofs.Corrects
 
 /-! ## (a) field arithmetic = polynomial arithmetic modulo the primitive polynomial -/
 
@@ -191,33 +192,19 @@ theorem rs_decode_total (F : GF) (h : FieldOK F) (w : List Nat) (r : Nat) (hne :
 
 /-! ## (d) error correction up to the design distance
 
-Full statement of the clause "decoding any such word after corruption of at most floor(parity/2)
-symbol positions restores it exactly" (NOT yet proved for the Euclid/Chien/Forney path in general):
+`rs_corrects` below is the clause "decoding any such word after corruption of at most floor(parity/2) symbol
+positions restores it exactly", proved in full for the model decoder: every field with `FieldOK`, generator
+base 0 or 1, every code word length `n ≤ size-1`, every parity count `r` the field supports, every error word of
+weight `≤ ⌊r/2⌋`.  Proof (Gzx/Proofs/{Conv,Coef,Euclid,KeyEq,Roots,Locator,Sugiyama,Chien,Forney,Corrects}.lean):
+the syndromes of `c + e` are the power sums `S_m = Σ Y_l X_l^m` of the error pattern; the model's Euclidean loop
+keeps `t·S ≡ r (mod x^R)` and `deg t + deg rLast = R` coefficient-wise; in power-sum form
+`(t·S)_m = Σ_l Y_l t(X_l⁻¹) X_l^m` for `m ≥ deg t`, so by the Vandermonde lemma the returned `t` vanishes at every
+inverse locator and has degree exactly the number of errors; by the root bound `t = c·Λ` and hence `r = c·Ω`
+(key equation for Λ); the Chien loop finds exactly the locators, Forney's formula (with the generator-base
+correction) the error values, and the correction loop restores `c`.
 
-```
-theorem rs_corrects (F : GF) (h : FieldOK F) (hb : F.base ≤ 1) (c e : List Nat) (r : Nat)
-    (hlen : e.length = c.length) (hn : c.length ≤ F.size - 1) (hc : InField F c) (he : InField F e)
-    (hz : ZeroSyndromes F c r) (hr : r < c.length) (hwt : 2 * weight e ≤ r) :
-    decode F (List.zipWith (· ^^^ ·) c e) r = .ok c
-```
-
-What is proved below (`rs_corrects_partial_*`):
- (1) `rs_syndromes_linear`   — syndromes are xor-linear: the syndromes of `c + e` are those of `e`;
- (2) `rs_min_distance`       — two code words that differ in at most `r` positions are equal
-                               (minimum distance `r+1`, Vandermonde argument), hence
-     `rs_unique_nearest`     — the code word within distance `⌊r/2⌋` of a received word is unique, so
-                               the word the property demands is the only admissible answer;
- (3) `rs_corrects_partial`   — `rs_corrects` itself with `weight e ≤ 1` in place of `2 * weight e ≤ r`; its core is
-     `rs_corrects_single`    — the case `|E| = 1` of `rs_corrects` end to end through the model decoder
-                               (syndromes, Euclid, locator shortcut, Forney with the generator-base
-                               correction, correction loop): every field, every length `n ≤ size-1`,
-                               every `r ≥ 2`, every position, every non-zero magnitude;
-     clean words pass unchanged (`rs_decode_clean` above, the case `|E| = 0`).
-Missing for the full theorem (`2 ≤ |E| ≤ ⌊r/2⌋`): the key equation `Λ·S ≡ Ω (mod x^r)` for the output of the model's
-`runEuclideanAlgorithm` (Euclid invariants + uniqueness of the solution of degree ≤ r/2), Chien search
-finds exactly the inverse locators, Forney's formula with the generator-base correction.
-For `2 ≤ |E| ≤ ⌊r/2⌋` the evidence is the correspondence + oracle part of the check (every single- and
-double-error pattern of four short codes in all six fields, sampled shapes, Chien boundary roots). -/
+Also kept: the earlier partial results (`rs_syndromes_linear`, `rs_min_distance`, `rs_unique_nearest`,
+`rs_corrects_single`, `rs_corrects_partial`), now corollaries in spirit but proved independently. -/
 
 /-- (1) syndromes are linear: the value of `c + e` at any field element is the xor of the values -/
 theorem rs_syndromes_linear (F : GF) (h : FieldOK F) (c e : List Nat) (hlen : c.length = e.length)
@@ -321,5 +308,47 @@ example : ZeroSyndromes aztecParam [5, 10, 2, 4, 10, 10, 9] 4 ∧
   unfold ZeroSyndromes; decide +kernel
 example : decode aztecParam ([5, 10, 3, 9, 6, 2, 14].set 2 (3 ^^^ 7)) 4 = .ok [5, 10, 3, 9, 6, 2, 14] := by
   decide +kernel
+
+/-- **Clause "decoding any such word after corruption of at most floor(parity/2) symbol positions restores it
+    exactly".**  `c` is any code word (zero syndromes `S_0 … S_{r-1}`) of length `n ≤ size-1`, `e` any error word
+    of the same length with at most `⌊r/2⌋` non-zero symbols; `Decode(c + e, r)` returns `c`. -/
+theorem rs_corrects (F : GF) (h : FieldOK F) (hb : F.base ≤ 1) (c e : List Nat) (r : Nat)
+    (hlen : e.length = c.length) (hn : c.length ≤ F.size - 1) (hc : InField F c) (he : InField F e)
+    (hz : ZeroSyndromes F c r) (hne : c ≠ []) (hrb : r + F.base ≤ F.size) (hwt : 2 * weight e ≤ r) :
+    decode F (List.zipWith (· ^^^ ·) c e) r = .ok c := by
+  unfold decode
+  rw [decodeD_corrects h hb c e r hlen hn hc he (fun i hi => by rw [← alpha_eq_pw F h]; exact hz i hi) hne hrb hwt]
+
+/-- hence `decode (encode d + e) = encode d` for every data word `d` (`k ≥ 1` symbols), every parity count `r ≥ 1`
+    with `k + r ≤ size - 1`, and every error word `e` with at most `⌊r/2⌋` non-zero symbols -/
+theorem rs_decode_encode_corrupted (F : GF) (h : FieldOK F) (hb : F.base ≤ 1) (data e : List Nat) (r : Nat)
+    (hk : data ≠ []) (hr : 0 < r) (hd : InField F data) (hn : data.length + r ≤ F.size - 1)
+    (hel : e.length = data.length + r) (he : InField F e) (hwt : 2 * weight e ≤ r) :
+    ∃ w, encodeWord F data r = .ok w ∧ decode F (List.zipWith (· ^^^ ·) w e) r = .ok w := by
+  have hrb : r + F.base ≤ F.size := by omega
+  obtain ⟨w, h1, h2, h3, h4⟩ := rs_encode_zero_syndromes F h data r hk hr hd hrb
+  refine ⟨w, h1, rs_corrects F h hb w e r (by omega) (by omega) h3 he h4 ?_ hrb hwt⟩
+  intro hw
+  rw [hw] at h2
+  have := List.length_pos_iff.2 hk
+  simp at h2; omega
+
+/-- number of positions in which two words of equal length differ -/
+def hamming (a b : List Nat) : Nat := weight (List.zipWith (· ^^^ ·) a b)
+
+/-- received-word form: any word `v` that differs from the code word `c` in at most `⌊r/2⌋` positions
+    decodes to `c` -/
+theorem rs_corrects_received (F : GF) (h : FieldOK F) (hb : F.base ≤ 1) (c v : List Nat) (r : Nat)
+    (hlen : v.length = c.length) (hn : c.length ≤ F.size - 1) (hc : InField F c) (hv : InField F v)
+    (hz : ZeroSyndromes F c r) (hne : c ≠ []) (hrb : r + F.base ≤ F.size) (hd : 2 * hamming c v ≤ r) :
+    decode F v r = .ok c := by
+  have := rs_corrects F h hb c (List.zipWith (· ^^^ ·) c v) r (by simp [hlen]) hn hc
+    (InR_zipWith_xor h.2 c v hc hv) hz hne hrb hd
+  rw [zipWith_xor_cancel c v hlen] at this
+  exact this
+
+/-! non-vacuity of `rs_corrects`: a GF(16) code word with r = 4 and an error word of weight 2 -/
+example : 2 * weight [0, 1, 0, 0, 0, 0, 15] ≤ 4 ∧ ZeroSyndromes aztecParam [5, 10, 3, 9, 6, 2, 14] 4 := by
+  unfold ZeroSyndromes; decide +kernel
 
 end Gzx.Properties.C04
